@@ -1392,18 +1392,38 @@ func checkBoolDecoders(c *Ctx, rule string) {
 		if bt, ok := g.Signature.Results().At(0).Type().Underlying().(*types.Basic); !ok || bt.Kind() != types.Bool {
 			continue
 		}
+		// a generic helper that is handed the parser as a function value is judged through the decoders that call it
+		hasFuncParam := false
+		for _, p := range g.Params {
+			if _, isSig := p.Type().Underlying().(*types.Signature); isSig {
+				hasFuncParam = true
+			}
+		}
+		if hasFuncParam {
+			continue
+		}
 		n++
 		fn := core.FuncName(g)
 		parsed, handRolled := false, ""
-		rps, _ := core.ReturnPaths(c.P, g, 2000)
-		for _, rp := range rps {
+		// helpers of the package are opened (the lookup may sit in a generic helper that receives strconv.ParseBool)
+		for _, rp := range InlinedPaths(c.P, g, inlineOpts{pkg: core.FuncPkg(g)}) {
 			r := rp.Results[0]
+			isParse := func(call *core.Term) bool {
+				if call.Op != "call" {
+					return false
+				}
+				if call.Name == "strconv.ParseBool" {
+					return true
+				}
+				// a call through a function value that is strconv.ParseBool
+				return len(call.Args) > 0 && call.Args[0].Op == "func" && call.Args[0].Name == "strconv.ParseBool"
+			}
 			switch {
-			case r.Op == "extract" && r.Name == "0" && len(r.Args) == 1 && r.Args[0].Op == "call" && r.Args[0].Name == "strconv.ParseBool":
+			case r.Op == "extract" && r.Name == "0" && len(r.Args) == 1 && isParse(r.Args[0]):
 				parsed = true
 			case r.Op == "param":
 				// the default
-			case r.Op == "const":
+			case r.IsConst("true") || r.IsConst("false"):
 				handRolled = r.String()
 			}
 		}
